@@ -178,6 +178,13 @@ def rand_ids(rng, n):
     return sorted(ids)[:n]
 
 
+# default literals that stress the generator's C escaping: a control byte followed by an octal digit, quotes, backslashes,
+# trigraphs, comment markers, printf directives, high bytes; for bytes also embedded NULs
+TRICKY_STR = [b'\x011', b'\x0f7up', b'x\x070', b'"quoted"', b'back\\slash', b"it's", b'??/', b'??=x', b'a?b', b'\xff\xfe',
+              b'\x7f', b'\t\n\r', b'%d%s', b'/*', b'*/', b'\x1b[0m', b'\xc3\xa9', b'\x019', b'\x1f0']
+TRICKY_BIN = TRICKY_STR + [b'\x001', b'\x00\x00\x00', b'a\x000', b'\x00', b'\x007\x00']
+
+
 def rand_default(rng, t):
     if t == T_FLOAT:
         v = rand_scalar(rng, t)
@@ -186,8 +193,12 @@ def rand_default(rng, t):
         v = rand_scalar(rng, t)
         return ('V', 0x7ff8000000000000 if (v & 0x7ff0000000000000) == 0x7ff0000000000000 and (v & 0xfffffffffffff) else v)
     if t == T_STRING:
+        if rng.random() < 0.4:
+            return ('S', rng.choice(TRICKY_STR))
         return ('S', rand_bytes(rng, rng.choice([0, 1, 3, 8]), nonul=True))
     if t == T_BYTES:
+        if rng.random() < 0.4:
+            return ('B', rng.choice(TRICKY_BIN))
         return ('B', rand_bytes(rng, rng.choice([0, 1, 3, 8])))
     if t == T_MESSAGE:
         return None
@@ -324,10 +335,13 @@ def rand_val(rng, schema, f, depth, big=False, budget=None):
     return ('w', rand_scalar(rng, t))
 
 
+SLAB_EDGES = [15, 16, 17, 31, 32, 33, 47, 48, 49, 111, 112, 113, 239, 240, 241]
+
+
 def rand_unknown(rng, m, big=False):
     known = {f.id for f in m.fields}
     out = []
-    n = rng.choice([0, 0, 0, 1, 2, 3])
+    n = rng.choice([0, 0, 0, 1, 2, 3]) if rng.random() > 0.03 else rng.choice([16, 17, 33, 49, 113])
     for _ in range(n):
         while True:
             r = rng.random()
@@ -386,6 +400,9 @@ def rand_msg(rng, schema, ty, depth=0, big=False, unknown=True, budget=None):
                 n = 0
             if big and f.type in PACKABLE and rng.random() < 0.1:
                 n = rng.choice([12, 13, 32, 64, 127, 128, 129])
+            if depth == 0 and f.type != T_MESSAGE and budget[0] > 0 and rng.random() < 0.05:
+                # record counts around the sizes of the parser's scanned-member slabs (16, +32, +64, +128, ...)
+                n = rng.choice(SLAB_EDGES)
             if n == 0:
                 slots.append(['rep', 0, None])
             else:
